@@ -938,3 +938,822 @@ def equal(a, b, tol=1e-9, ignore_creator=True, ignore_files=False):
             if pa.get(k) != pb.get(k):
                 d("%s/%s" % (part, k), pa.get(k, "<absent>"), pb.get(k, "<absent>"))
     return diffs
+
+
+# ------------------------------------------------------------------------------------------------
+# independent WRITER with randomised legal surface syntax
+
+STYLE_DEFAULTS = {
+    # --- legal variation that norad accepts (random_style draws these) ---
+    "quote": '"',               # '"' | "'" | "mix"   attribute quoting
+    "indent": "\t",             # indentation unit ("" = none)
+    "newline": "\n",            # "\n" | "\r\n"       line terminator of the formatting white space
+    "compact": False,           # no white space between elements at all
+    "ws_noise": 0.0,            # probability of extra blanks / line breaks at every separator and inside tags
+    "xml_decl": "utf8",         # "utf8" | "utf8-lower" | "no-encoding" | "standalone" | "none"
+    "decl_quote": '"',
+    "bom_glif": False,          # UTF-8 byte order mark in front of .glif files
+    "bom_plist": False,         # ... in front of .plist files
+    "plist_doctype": True,      # Apple DOCTYPE in plist files
+    "plist_version_attr": True, # version="1.0" on <plist>
+    "comments": 0.0,            # probability of a comment at each position where XML allows one AND norad
+                                # accepts it (before/after the root, between plist elements, inside <lib>)
+    "attr_order": "random",     # "random" | "spec"
+    "self_close": 0.5,          # probability of <x/> instead of <x></x> for empty dict/array/string/outline/true/false
+    "key_order": "random",      # "random" | "sorted"    plist dictionary key order
+    "layer_order": "random",    # "random" | "first" | "last"   position of the default layer in layercontents.plist
+    "glif_element_order": "random",  # "random" | "spec"  order of the children of <glyph>
+    "num_spell": 0.3,           # probability of an alternative numeric spelling (1 / 1.0 / 1e0 / +1 / 01 ...)
+    "charref": 0.05,            # probability per character of a numeric character reference
+    "explicit_defaults": 0.3,   # probability of spelling out an attribute / key that has its default value
+    "int_real_respell": 0.3,    # probability of <real> for an integral "integer or float" value and vice versa
+    "empty_files": 0.2,         # probability of writing an optional file / directory that would be empty
+    "file_names": "ufo",        # "ufo" (derived from the name) | "opaque" (g0001.glif, glyphs.L1)
+    "hex_case": "random",       # unicode hex digits: "upper" | "lower" | "random"; padding varies too
+    # --- legal (or tolerated-by-spec) forms norad is KNOWN to reject or mis-read: opt-in ---
+    "comments_in_glyph": False,   # F14: comments between the children of <glyph>, <outline>, <contour>
+    "open_close_empties": False,  # F14: <advance ...></advance> etc. instead of the empty-element tag
+    "empty_lib_element": False,   # F14: <lib/> when the glyph lib is empty
+    "empty_note_element": False,  # F14: <note/> for the empty note
+    "cdata_note": False,          # F14: note text in a CDATA section
+    "cdata_strings": False,       # plist <string> text in a CDATA section (skipped by the plist crate)
+    "glif_doctype": False,        # F17: <!DOCTYPE glyph> before <glyph>
+    "ws_in_numbers": False,       # blanks around numbers in attributes / <integer> / <real>
+    "non_utf8_encoding": None,    # e.g. "utf-16" or "iso-8859-1" (when the text allows it)
+    "pi": False,                  # processing instructions
+    "hex_integers": False,        # <integer>0x1f</integer>
+    "unknown_glyph_attr_ws": False,
+}
+
+KNOWN_CLASSES = ("comments_in_glyph", "open_close_empties", "empty_lib_element", "empty_note_element", "cdata_note",
+                 "cdata_strings", "glif_doctype", "ws_in_numbers", "non_utf8_encoding", "pi", "hex_integers")
+
+
+def random_style(rng, **classes):
+    """A random style inside what norad accepts; `classes` switches known-finding classes on
+    (e.g. random_style(rng, comments_in_glyph=True); all=True switches every class on)."""
+    s = dict(STYLE_DEFAULTS)
+    s["quote"] = rng.choice(['"', "'", "mix"])
+    s["indent"] = rng.choice(["\t", "  ", "    ", " ", "", "\t\t"])
+    s["newline"] = rng.choice(["\n", "\n", "\r\n"])
+    s["compact"] = rng.random() < 0.15
+    s["ws_noise"] = rng.choice([0.0, 0.0, 0.1, 0.5])
+    s["xml_decl"] = rng.choice(["utf8", "utf8", "utf8-lower", "no-encoding", "standalone", "none"])
+    s["decl_quote"] = rng.choice(['"', "'"])
+    s["bom_glif"] = rng.random() < 0.2
+    s["bom_plist"] = rng.random() < 0.2
+    s["plist_doctype"] = rng.random() < 0.7
+    s["plist_version_attr"] = rng.random() < 0.8
+    s["comments"] = rng.choice([0.0, 0.0, 0.1, 0.4])
+    s["attr_order"] = rng.choice(["random", "random", "spec"])
+    s["self_close"] = rng.choice([0.0, 0.5, 1.0])
+    s["key_order"] = rng.choice(["random", "random", "sorted"])
+    s["layer_order"] = rng.choice(["random", "random", "first", "last"])
+    s["glif_element_order"] = rng.choice(["random", "spec"])
+    s["num_spell"] = rng.choice([0.0, 0.3, 0.8])
+    s["charref"] = rng.choice([0.0, 0.0, 0.05, 0.5])
+    s["explicit_defaults"] = rng.choice([0.0, 0.3, 1.0])
+    s["int_real_respell"] = rng.choice([0.0, 0.3, 1.0])
+    s["empty_files"] = rng.choice([0.0, 0.2, 1.0])
+    s["file_names"] = rng.choice(["ufo", "ufo", "opaque"])
+    s["hex_case"] = rng.choice(["upper", "lower", "random"])
+    every = classes.pop("all", False)
+    for c in KNOWN_CLASSES:
+        if every or classes.get(c):
+            s[c] = "utf-16" if c == "non_utf8_encoding" else True
+    return s
+
+
+_COMMENTS = [" comment ", "", " <not><an element/> & not an entity &amp; ", "\n multi\n line\n", " - ", " café \U0001F600 ",
+             " <key>k</key><string>v</string> ", " ]]> "]
+
+
+class _W(object):
+    """one output document"""
+
+    def __init__(self, rng, style, kind):
+        self.rng = rng
+        self.s = style
+        self.kind = kind            # "plist" | "glif"
+        self.out = []
+
+    # -- lexical pieces ---------------------------------------------------------------------
+    def p(self, prob):
+        return prob > 0 and self.rng.random() < prob
+
+    def blank(self):
+        """optional white space inside a tag"""
+        if self.p(self.s["ws_noise"]):
+            return self.rng.choice([" ", "  ", "\t", self.s["newline"], " " + self.s["newline"] + "  "])
+        return ""
+
+    def sep(self, level, comments_ok=True):
+        """white space (and possibly comments) between two elements"""
+        parts = []
+        if self.s["compact"]:
+            ws = ""
+        elif self.p(self.s["ws_noise"]):
+            ws = self.rng.choice([" ", "", self.s["newline"] * 2, "\t \t", self.s["newline"] + " "])
+        else:
+            ws = self.s["newline"] + self.s["indent"] * level
+        parts.append(ws)
+        if comments_ok:
+            while self.p(self.s["comments"]):
+                parts.append("<!--" + self.rng.choice(_COMMENTS) + "-->")
+                parts.append(ws)
+            if self.s["pi"] and self.p(0.2):
+                parts.append("<?fontio test?>")
+                parts.append(ws)
+        self.out.append("".join(parts))
+
+    def charref(self, c):
+        o = ord(c)
+        k = self.rng.randrange(4)
+        if k == 0:
+            return "&#%d;" % o
+        if k == 1:
+            return "&#x%x;" % o
+        if k == 2:
+            return "&#x%X;" % o
+        return "&#%04d;" % o
+
+    def esc_text(self, t):
+        out = []
+        for i, c in enumerate(t):
+            if c == "<":
+                out.append("&lt;" if not self.p(self.s["charref"]) else self.charref(c))
+            elif c == "&":
+                out.append("&amp;" if not self.p(self.s["charref"]) else self.charref(c))
+            elif c == ">":
+                if t[max(0, i - 2):i] == "]]" or self.rng.random() < 0.5:
+                    out.append("&gt;")
+                else:
+                    out.append(">")
+            elif c == "\r":
+                out.append(self.rng.choice(["&#13;", "&#xD;", "&#xd;"]))
+            elif c in "\"'" and self.rng.random() < 0.2:
+                out.append("&quot;" if c == '"' else "&apos;")
+            elif self.p(self.s["charref"]):
+                out.append(self.charref(c))
+            else:
+                out.append(c)
+        return "".join(out)
+
+    def cdata(self, t):
+        return "<![CDATA[" + t.replace("]]>", "]]]]><![CDATA[>") + "]]>"
+
+    def attr(self, name, value):
+        q = self.s["quote"]
+        if q == "mix":
+            q = self.rng.choice(['"', "'"])
+        out = []
+        for c in value:
+            if c == "<":
+                out.append("&lt;")
+            elif c == "&":
+                out.append("&amp;")
+            elif c == q:
+                out.append("&quot;" if c == '"' else "&apos;")
+            elif c in "\t\n\r":
+                out.append("&#%d;" % ord(c))
+            elif c == ">" and self.rng.random() < 0.5:
+                out.append("&gt;")
+            elif c in "\"'" and self.rng.random() < 0.2:
+                out.append("&quot;" if c == '"' else "&apos;")
+            elif self.p(self.s["charref"]):
+                out.append(self.charref(c))
+            else:
+                out.append(c)
+        eq = self.blank() + "=" + self.blank()
+        return name + eq + q + "".join(out) + q
+
+    def tag(self, name, attrs=(), empty=False, spec_order=False):
+        """start tag or empty-element tag; attrs = [(name, value)]"""
+        attrs = list(attrs)
+        if self.s["attr_order"] == "random" and not spec_order:
+            self.rng.shuffle(attrs)
+        parts = ["<" + name]
+        for k, v in attrs:
+            parts.append((self.blank() or " ") + self.attr(k, v))
+        parts.append(self.blank())
+        if empty and self.s["open_close_empties"] and self.rng.random() < 0.5:
+            parts.append("></" + name + self.blank() + ">")
+        else:
+            parts.append("/>" if empty else ">")
+        self.out.append("".join(parts))
+
+    def end(self, name):
+        self.out.append("</" + name + self.blank() + ">")
+
+    # -- numbers ------------------------------------------------------------------------------
+    def spell_float(self, x):
+        base = repr(float(x))
+        if base.endswith(".0") and "e" not in base:
+            base_alt = [base[:-2]]
+        else:
+            base_alt = []
+        cands = [base]
+        if self.p(self.s["num_spell"]):
+            cands = [base] + base_alt
+            cands.append("%.17g" % x)
+            cands.append(("%.17e" % x).replace("e", self.rng.choice("eE")))
+            cands.append(base.upper() if "e" in base else base)
+            if x == int(x) and abs(x) < 1e15:
+                i = "%d" % int(x)
+                if i == "0" and math.copysign(1.0, x) < 0:
+                    i = "-0"
+                cands += [i, i + ".0", i + ".", i + "e0", i + "E+0", i + ".000"]
+                if not i.startswith("-"):
+                    cands += ["+" + i, "00" + i, "+" + i + ".0"]
+                else:
+                    cands += ["-00" + i[1:]]
+            elif 0 < abs(x) < 1 and base.startswith(("0.", "-0.")):
+                cands.append(base.replace("0.", ".", 1))
+            if not base.startswith("-"):
+                cands.append("+" + base)
+        c = self.rng.choice(cands)
+        if float(c) != x or math.copysign(1.0, float(c)) != math.copysign(1.0, x):
+            c = base
+        if self.s["ws_in_numbers"] and self.rng.random() < 0.5:
+            c = self.rng.choice([" ", "\n", "\t"]) + c + self.rng.choice([" ", ""])
+        return c
+
+    def spell_int(self, i):
+        c = str(i)
+        if self.p(self.s["num_spell"]):
+            if i >= 0:
+                c = self.rng.choice([c, "+" + c, "0" + c, "000" + c])
+            else:
+                c = self.rng.choice([c, "-0" + c[1:]])
+        if self.s["hex_integers"] and i >= 0 and self.rng.random() < 0.5:
+            c = "0x%x" % i
+        if self.s["ws_in_numbers"] and self.rng.random() < 0.5:
+            c = " " + c + self.rng.choice([" ", "\n"])
+        return c
+
+    # -- plist values -------------------------------------------------------------------------
+    def empty_or_pair(self, name, level):
+        if self.p(self.s["self_close"]):
+            self.tag(name, empty=True)
+            # `open_close_empties` must not apply here: handled by the else branch
+        else:
+            self.tag(name)
+            if not self.s["compact"] and self.rng.random() < 0.3 and name in ("dict", "array"):
+                self.sep(level)
+            self.end(name)
+
+    def text_el(self, name, t):
+        if t == "":
+            self.empty_or_pair(name, 0)
+            return
+        self.tag(name)
+        if self.s["cdata_strings"] and self.rng.random() < 0.5:
+            self.out.append(self.cdata(t))
+        else:
+            e = self.esc_text(t)
+            if self.p(self.s["comments"]) and len(t) > 1:
+                # a comment in the middle of character data does not change the text
+                k = self.rng.randrange(1, len(t))
+                e = self.esc_text(t[:k]) + "<!--" + self.rng.choice(_COMMENTS) + "-->" + self.esc_text(t[k:])
+            self.out.append(e)
+        self.end(name)
+
+    def number_pv(self, pv, respell):
+        """int / real, optionally respelled as the other element when the value allows"""
+        t = pv["t"]
+        if t == "int":
+            i = pv["v"]
+            if respell and self.p(self.s["int_real_respell"]) and float(i) == i and abs(i) < 2 ** 53:
+                self.tag("real")
+                self.out.append(self.spell_float(float(i)))
+                self.end("real")
+            else:
+                self.tag("integer")
+                self.out.append(self.spell_int(i))
+                self.end("integer")
+        else:
+            x = val(pv["v"])
+            if respell and self.p(self.s["int_real_respell"]) and x == int(x) and abs(x) < 2 ** 31 and not (x == 0 and math.copysign(1, x) < 0):
+                self.tag("integer")
+                self.out.append(self.spell_int(int(x)))
+                self.end("integer")
+            else:
+                self.tag("real")
+                self.out.append(self.spell_float(x))
+                self.end("real")
+
+    def pv(self, pv, level, respell=False):
+        t = pv["t"]
+        if t in ("int", "real"):
+            self.number_pv(pv, respell)
+        elif t == "str":
+            self.text_el("string", pv["v"])
+        elif t == "bool":
+            name = "true" if pv["v"] else "false"
+            if self.p(self.s["self_close"]) or True:
+                # <true></true> is legal XML but not what any plist writer produces; keep the choice
+                if self.rng.random() < 0.9:
+                    self.tag(name, empty=True)
+                else:
+                    self.tag(name)
+                    self.end(name)
+        elif t == "data":
+            b = base64.b64encode(bytes.fromhex(pv["v"])).decode("ascii")
+            self.tag("data")
+            k = self.rng.choice([0, 0, 76, 68, 20, 4])
+            if k and b:
+                lines = [b[i:i + k] for i in range(0, len(b), k)]
+                ws = self.s["newline"] + self.s["indent"] * level
+                self.out.append(ws + ws.join(lines) + ws)
+            else:
+                self.out.append(b)
+            self.end("data")
+        elif t == "date":
+            self.tag("date")
+            self.out.append(pv["v"])
+            self.end("date")
+        elif t == "array":
+            if not pv["v"]:
+                self.empty_or_pair("array", level)
+                return
+            self.tag("array")
+            for x in pv["v"]:
+                self.sep(level + 1)
+                self.pv(x, level + 1, respell)
+            self.sep(level)
+            self.end("array")
+        elif t == "dict":
+            self.dict(pv["v"], level, respell=respell)
+        else:
+            raise UfoError("cannot write plist value of type %r" % t)
+
+    def dict(self, d, level, respell=False, respell_keys=None):
+        if not d:
+            self.empty_or_pair("dict", level)
+            return
+        keys = sorted(d)
+        if self.s["key_order"] == "random":
+            self.rng.shuffle(keys)
+        self.tag("dict")
+        for k in keys:
+            self.sep(level + 1)
+            self.text_el("key", k)
+            self.sep(level + 1, comments_ok=True)
+            r = respell or (respell_keys is not None and k in respell_keys)
+            self.pv(d[k], level + 1, r)
+        self.sep(level)
+        self.end("dict")
+
+    # -- documents ----------------------------------------------------------------------------
+    def prolog(self):
+        d = self.s["xml_decl"]
+        q = self.s["decl_quote"]
+        enc = self.s["non_utf8_encoding"]
+        if enc:
+            self.out.append("<?xml version=%s1.0%s encoding=%s%s%s?>" % (q, q, q, enc.upper(), q))
+        elif d == "utf8":
+            self.out.append("<?xml version=%s1.0%s encoding=%sUTF-8%s?>" % (q, q, q, q))
+        elif d == "utf8-lower":
+            self.out.append("<?xml version=%s1.0%s encoding=%sutf-8%s ?>" % (q, q, q, q))
+        elif d == "no-encoding":
+            self.out.append("<?xml version=%s1.0%s?>" % (q, q))
+        elif d == "standalone":
+            self.out.append("<?xml version=%s1.0%s encoding=%sUTF-8%s standalone=%syes%s?>" % (q, q, q, q, q, q))
+        if d != "none" or enc:
+            self.sep(0)
+        elif self.p(self.s["comments"]):
+            self.out.append("<!-- no declaration -->")
+            self.sep(0)
+
+    def finish(self, bom):
+        self.sep(0) if self.rng.random() < 0.9 else None
+        text = "".join(self.out)
+        enc = self.s["non_utf8_encoding"]
+        if enc:
+            try:
+                return text.encode(enc)
+            except UnicodeEncodeError:
+                return text.replace(enc.upper(), "UTF-8", 1).encode("utf-8")
+        data = text.encode("utf-8")
+        if bom:
+            data = b"\xef\xbb\xbf" + data
+        return data
+
+
+def _plist_doc(rng, style, value, respell=False, respell_keys=None):
+    w = _W(rng, style, "plist")
+    w.prolog()
+    if style["plist_doctype"]:
+        w.out.append('<!DOCTYPE plist PUBLIC "-//Apple//DTD PLIST 1.0//EN" "http://www.apple.com/DTDs/PropertyList-1.0.dtd">')
+        w.sep(0)
+    w.tag("plist", [("version", "1.0")] if style["plist_version_attr"] else [])
+    w.sep(0 if rng.random() < 0.5 else 1)
+    if value["t"] == "dict":
+        w.dict(value["v"], 0, respell=respell, respell_keys=respell_keys)
+    else:
+        w.pv(value, 0, respell)
+    w.sep(0)
+    w.end("plist")
+    return w.finish(style["bom_plist"])
+
+
+def _color_str(c, w):
+    # 3 decimals are what the comparison grants; use repr when it is short, else 3 decimals
+    parts = []
+    for x in c:
+        f = val(x)
+        r = repr(f)
+        if len(r) > 6:
+            r = ("%.3f" % f).rstrip("0").rstrip(".")
+            if float(r) != f:
+                r = repr(f)
+        if r.endswith(".0"):
+            r = w.rng.choice([r, r[:-2]])
+        parts.append(r)
+    return ",".join(parts)
+
+
+def _transform_attrs(w, t):
+    out = []
+    for name, x, dflt in zip(_TRANSFORM_ATTRS, t, (1.0, 0.0, 0.0, 1.0, 0.0, 0.0)):
+        f = val(x)
+        if f != dflt or math.copysign(1, f) != math.copysign(1, dflt) or w.p(w.s["explicit_defaults"]):
+            out.append((name, w.spell_float(f)))
+    return out
+
+
+def _glif_doc(rng, style, g):
+    w = _W(rng, style, "glif")
+    w.prolog()
+    if style["glif_doctype"]:
+        w.out.append("<!DOCTYPE glyph>")
+        w.sep(0)
+    root_attrs = [("name", g["name"]), ("format", "2")]
+    if w.p(w.s["explicit_defaults"]) and False:
+        root_attrs.append(("formatMinor", "0"))
+    w.tag("glyph", root_attrs)
+    inner = style["comments_in_glyph"]
+
+    def sep(level):
+        w.sep(level, comments_ok=inner)
+
+    # object libs go to the glyph lib
+    lib = dict(g.get("lib") or {})
+    olibs = {}
+    objs = list(g["anchors"]) + list(g["guidelines"]) + list(g["components"])
+    for c in g["contours"]:
+        objs.append(c)
+        objs += c["points"]
+    for o in objs:
+        if o.get("lib") is not None:
+            if o.get("identifier") is None:
+                raise UfoError("object lib without identifier in glyph %r" % g["name"])
+            olibs[o["identifier"]] = {"t": "dict", "v": o["lib"]}
+    if olibs:
+        if OBJECT_LIBS in lib:
+            raise UfoError("glyph lib already has %s" % OBJECT_LIBS)
+        lib[OBJECT_LIBS] = {"t": "dict", "v": olibs}
+
+    def opt(attrs, name, v):
+        if v is not None:
+            attrs.append((name, v))
+
+    def w_advance():
+        wd, ht = val(g["advance"][0]), val(g["advance"][1])
+        attrs = []
+        if wd != 0 or w.p(w.s["explicit_defaults"]):
+            attrs.append(("width", w.spell_float(wd)))
+        if ht != 0 or w.p(w.s["explicit_defaults"]):
+            attrs.append(("height", w.spell_float(ht)))
+        if attrs or w.p(w.s["explicit_defaults"]):
+            sep(1)
+            w.tag("advance", attrs, empty=True)
+
+    def w_unicodes():
+        for c in g["unicodes"]:
+            hc = style["hex_case"]
+            if hc == "random":
+                hc = rng.choice(["upper", "lower"])
+            h = ("%04X" if hc == "upper" else "%04x") % c
+            if w.p(w.s["num_spell"]):
+                h = rng.choice([h.lstrip("0") or "0", "00" + h, h])
+            sep(1)
+            w.tag("unicode", [("hex", h)], empty=True)
+
+    def w_image():
+        im = g.get("image")
+        if im is None:
+            return
+        attrs = [("fileName", im["fileName"])] + _transform_attrs(w, im["transform"])
+        if im.get("color") is not None:
+            attrs.append(("color", _color_str(im["color"], w)))
+        sep(1)
+        w.tag("image", attrs, empty=True)
+
+    def w_guidelines():
+        for gl in g["guidelines"]:
+            attrs = []
+            for k in ("x", "y", "angle"):
+                if gl.get(k) is not None:
+                    attrs.append((k, w.spell_float(val(gl[k]))))
+            opt(attrs, "name", gl.get("name"))
+            if gl.get("color") is not None:
+                attrs.append(("color", _color_str(gl["color"], w)))
+            opt(attrs, "identifier", gl.get("identifier"))
+            sep(1)
+            w.tag("guideline", attrs, empty=True)
+
+    def w_anchors():
+        for a in g["anchors"]:
+            attrs = [("x", w.spell_float(val(a["x"]))), ("y", w.spell_float(val(a["y"])))]
+            opt(attrs, "name", a.get("name"))
+            if a.get("color") is not None:
+                attrs.append(("color", _color_str(a["color"], w)))
+            opt(attrs, "identifier", a.get("identifier"))
+            sep(1)
+            w.tag("anchor", attrs, empty=True)
+
+    def w_outline():
+        if not g["contours"] and not g["components"]:
+            if w.p(w.s["explicit_defaults"]):
+                sep(1)
+                if w.p(w.s["self_close"]):
+                    w.out.append("<outline" + w.blank() + "/>")
+                else:
+                    w.tag("outline")
+                    w.end("outline")
+            return
+        sep(1)
+        w.tag("outline")
+        items = [("contour", c) for c in g["contours"]] + [("component", c) for c in g["components"]]
+        if style["glif_element_order"] == "random":
+            # contours and components may interleave; the order within each kind is data
+            ci = [x for x in items if x[0] == "contour"]
+            ki = [x for x in items if x[0] == "component"]
+            items = []
+            while ci or ki:
+                if ci and (not ki or rng.random() < 0.5):
+                    items.append(ci.pop(0))
+                else:
+                    items.append(ki.pop(0))
+        for kind, c in items:
+            sep(2)
+            if kind == "component":
+                attrs = [("base", c["base"])] + _transform_attrs(w, c["transform"])
+                opt(attrs, "identifier", c.get("identifier"))
+                w.tag("component", attrs, empty=True)
+            else:
+                attrs = []
+                opt(attrs, "identifier", c.get("identifier"))
+                w.tag("contour", attrs)
+                for p in c["points"]:
+                    pa = [("x", w.spell_float(val(p["x"]))), ("y", w.spell_float(val(p["y"])))]
+                    if p["type"] != "offcurve" or w.p(w.s["explicit_defaults"]):
+                        pa.append(("type", p["type"]))
+                    if p.get("smooth"):
+                        pa.append(("smooth", "yes"))
+                    elif w.p(w.s["explicit_defaults"]):
+                        pa.append(("smooth", "no"))
+                    opt(pa, "name", p.get("name"))
+                    opt(pa, "identifier", p.get("identifier"))
+                    sep(3)
+                    w.tag("point", pa, empty=True)
+                sep(2)
+                w.end("contour")
+        sep(1)
+        w.end("outline")
+
+    def w_lib():
+        if not lib:
+            if style["empty_lib_element"]:
+                sep(1)
+                w.out.append(rng.choice(["<lib/>", "<lib></lib>"]))
+            elif w.p(w.s["explicit_defaults"]):
+                sep(1)
+                w.tag("lib")
+                w.sep(2)
+                w.dict({}, 2)
+                w.sep(1)
+                w.end("lib")
+            return
+        sep(1)
+        w.tag("lib")
+        w.sep(2)
+        w.dict(lib, 2)
+        w.sep(1)
+        w.end("lib")
+
+    def w_note():
+        n = g.get("note")
+        if n is None:
+            return
+        sep(1)
+        if n == "" and style["empty_note_element"]:
+            w.out.append("<note/>")
+            return
+        w.tag("note")
+        if style["cdata_note"] and rng.random() < 0.7:
+            w.out.append(w.cdata(n))
+        else:
+            w.out.append(w.esc_text(n))
+        w.end("note")
+
+    parts = [w_advance, w_unicodes, w_note, w_image, w_guidelines, w_anchors, w_outline, w_lib]
+    if style["glif_element_order"] == "random":
+        rng.shuffle(parts)
+    for f in parts:
+        f()
+    sep(0)
+    w.end("glyph")
+    return w.finish(style["bom_glif"])
+
+
+_ILLEGAL = set('"*+/:<>?[\\]|') | {chr(c) for c in range(0x20)} | {"\x7f"}
+_RESERVED = {"con", "prn", "aux", "clock$", "nul", "a:-z:"} | {"com%d" % i for i in range(1, 10)} | {"lpt%d" % i for i in range(1, 10)}
+
+
+def _file_name(name, prefix, suffix, taken):
+    """a portable, case-insensitively unique file name derived from `name` (UFO 3 conventions, simplified)"""
+    out = []
+    for i, c in enumerate(name):
+        if i == 0 and c == "." and not prefix:
+            out.append("_")
+        elif c in _ILLEGAL:
+            out.append("_")
+        elif c != c.lower():
+            out.append(c + "_")
+        else:
+            out.append(c)
+    s = "".join(out)
+    parts = s.split(".")
+    parts = ["_" + p if p.lower() in _RESERVED else p for p in parts]
+    s = ".".join(parts)
+    while len((prefix + s + suffix).encode("utf-8")) > 200:
+        s = s[:-1]
+    full = prefix + s + suffix
+    n = 0
+    while full.lower() in taken or s.endswith((" ", ".")) and not suffix:
+        n += 1
+        full = prefix + s + "%02d" % n + suffix
+        if not (s.endswith((" ", ".")) and not suffix) and full.lower() not in taken:
+            break
+        if n > 1000:
+            raise UfoError("cannot find a file name for %r" % name)
+        if s.endswith((" ", ".")) and not suffix:
+            s = s.rstrip(" .") + "_"
+            full = prefix + s + suffix
+    taken.add(full.lower())
+    return full
+
+
+def write_ufo(font, path, rng, style=None):
+    """Render the abstract font as a UFO 3 directory at `path` (which must not exist).
+    `rng` is a random.Random; `style` a dictionary as returned by random_style (missing keys take
+    STYLE_DEFAULTS).  Raises UfoError for fonts that cannot be expressed."""
+    s = dict(STYLE_DEFAULTS)
+    s.update(style or {})
+    style = s
+    os.makedirs(path)
+
+    def P(*a):
+        return os.path.join(path, *a)
+
+    def put(rel, data):
+        full = P(*rel.split("/"))
+        os.makedirs(os.path.dirname(full), exist_ok=True)
+        with open(full, "wb") as f:
+            f.write(data)
+
+    def maybe_empty():
+        return rng.random() < style["empty_files"]
+
+    def S(x):
+        return {"t": "str", "v": x}
+
+    meta = font.get("meta") or {}
+    md = {"formatVersion": {"t": "int", "v": meta.get("formatVersion", 3)}}
+    if meta.get("creator") is not None:
+        md["creator"] = S(meta["creator"])
+    minor = meta.get("formatVersionMinor", 0)
+    if minor != 0 or rng.random() < style["explicit_defaults"]:
+        md["formatVersionMinor"] = {"t": "int", "v": minor}
+    put("metainfo.plist", _plist_doc(rng, style, {"t": "dict", "v": md}))
+
+    lib = dict(font.get("lib") or {})
+    info = dict(font.get("info") or {})
+    gls = font.get("guidelines")
+    if gls is not None:
+        arr = []
+        olibs = {}
+        for g in gls:
+            d = {}
+            for k in ("x", "y", "angle"):
+                if g.get(k) is not None:
+                    d[k] = {"t": "real", "v": g[k]}
+            if g.get("name") is not None:
+                d["name"] = S(g["name"])
+            if g.get("color") is not None:
+                d["color"] = S(_color_str(g["color"], _W(rng, style, "plist")))
+            if g.get("identifier") is not None:
+                d["identifier"] = S(g["identifier"])
+            if g.get("lib") is not None:
+                if g.get("identifier") is None:
+                    raise UfoError("font-info guideline lib without identifier")
+                olibs[g["identifier"]] = {"t": "dict", "v": g["lib"]}
+            arr.append({"t": "dict", "v": d})
+        info["guidelines"] = {"t": "array", "v": arr}
+        if olibs:
+            if OBJECT_LIBS in lib:
+                raise UfoError("font lib already has %s" % OBJECT_LIBS)
+            lib[OBJECT_LIBS] = {"t": "dict", "v": olibs}
+    if info or maybe_empty():
+        respell = {k for k, t in FONTINFO_KEYS.items() if t in ("num", "nnnum", "numlist", "float", "list")}
+        # "list": only guidelines carry integer-or-float numbers; gasp / name records are integers
+        respell -= {"openTypeGaspRangeRecords", "openTypeNameRecords", "woffMetadataExtensions"}
+        put("fontinfo.plist", _plist_doc(rng, style, {"t": "dict", "v": info}, respell_keys=respell))
+    if lib or maybe_empty():
+        put("lib.plist", _plist_doc(rng, style, {"t": "dict", "v": lib}))
+    groups = font.get("groups") or {}
+    if groups or maybe_empty():
+        put("groups.plist", _plist_doc(rng, style, {"t": "dict", "v": {
+            k: {"t": "array", "v": [S(x) for x in v]} for k, v in groups.items()}}))
+    kerning = font.get("kerning") or {}
+    if kerning or maybe_empty():
+        kd = {}
+        for k, inner in kerning.items():
+            kd[k] = {"t": "dict", "v": {}}
+            for k2, x in inner.items():
+                f = val(x)
+                if f == int(f) and abs(f) < 2 ** 31 and not (f == 0 and math.copysign(1, f) < 0) and rng.random() < 0.5:
+                    kd[k]["v"][k2] = {"t": "int", "v": int(f)}
+                else:
+                    kd[k]["v"][k2] = {"t": "real", "v": num(f)}
+        put("kerning.plist", _plist_doc(rng, style, {"t": "dict", "v": kd}, respell=True))
+    feats = font.get("features")
+    if feats:
+        put("features.fea", feats.encode("utf-8"))
+    elif maybe_empty():
+        put("features.fea", b"")
+
+    layers = font.get("layers") or []
+    if not layers:
+        raise UfoError("a UFO needs a default layer")
+    taken_dirs = {"glyphs"}
+    entries = []
+    for i, layer in enumerate(layers):
+        if i == 0:
+            d = "glyphs"
+            if layer.get("dir") not in (None, "glyphs"):
+                raise UfoError("the first layer must be the default layer (directory 'glyphs')")
+        elif layer.get("dir") is not None:
+            d = layer["dir"]
+            taken_dirs.add(d.lower())
+        elif style["file_names"] == "opaque":
+            d = _file_name("L%d" % i, "glyphs.", "", taken_dirs)
+        else:
+            d = _file_name(layer["name"], "glyphs.", "", taken_dirs)
+        entries.append((layer["name"], d))
+        taken = set()
+        contents = {}
+        for j, g in enumerate(layer["glyphs"]):
+            if g.get("file") is not None:
+                fn = g["file"]
+                taken.add(fn.lower())
+            elif style["file_names"] == "opaque":
+                fn = _file_name("g%04d" % j, "", ".glif", taken)
+            else:
+                fn = _file_name(g["name"], "", ".glif", taken)
+            contents[g["name"]] = S(fn)
+            put(d + "/" + fn, _glif_doc(rng, style, g))
+        put(d + "/contents.plist", _plist_doc(rng, style, {"t": "dict", "v": contents}))
+        li = {}
+        if layer.get("color") is not None:
+            li["color"] = S(_color_str(layer["color"], _W(rng, style, "plist")))
+        if layer.get("lib"):
+            li["lib"] = {"t": "dict", "v": layer["lib"]}
+        elif li and maybe_empty() or (not li and maybe_empty() and rng.random() < 0.5):
+            li["lib"] = {"t": "dict", "v": {}}
+        if li or maybe_empty():
+            put(d + "/layerinfo.plist", _plist_doc(rng, style, {"t": "dict", "v": li}))
+    order = style["layer_order"]
+    rest = entries[1:]
+    if order == "first" or not rest:
+        pos = 0
+    elif order == "last":
+        pos = len(rest)
+    else:
+        pos = rng.randrange(len(rest) + 1)
+    entries = rest[:pos] + [entries[0]] + rest[pos:]
+    put("layercontents.plist", _plist_doc(rng, style, {"t": "array", "v": [
+        {"t": "array", "v": [S(n), S(d)]} for n, d in entries]}))
+
+    data = font.get("data") or {}
+    for k, v in data.items():
+        put("data/" + k, bytes.fromhex(v))
+    if not data and maybe_empty():
+        os.makedirs(P("data"))
+    images = font.get("images") or {}
+    for k, v in images.items():
+        put("images/" + k, bytes.fromhex(v))
+    if not images and maybe_empty():
+        os.makedirs(P("images"))
